@@ -283,6 +283,14 @@ pub fn run(r: &mut Runner) -> &'static str {
     r.assumptions.push("B's 'remains valid after the buffer is dropped' is also guaranteed by the type system in a crate without unsafe; the check exercises it all the same".into());
     let n = r.n(300_000, 8_000_000);
     r.random("c16.agree", n, 200, &gen_str, &judge_agree);
+    // the same check over chains of related inputs judged back to back on one thread (history independence)
+    let n = r.n(40000, 1000000);
+    r.random("c16.chains", n, 260, &|t| crate::gen::gen_chain(t, &gen_str), &|c: &crate::engine::Chain, st: &mut Stats| {
+        for x in &c.0 {
+            judge_agree(x, st)?;
+        }
+        Ok(())
+    });
     let n = r.n(100_000, 2_000_000);
     r.random("c16.owned", n, 200, &gen_owned, &judge_owned);
     "exploration"
